@@ -128,6 +128,19 @@ CHECKS["C15"] = dict(
     note="float formatting, width/precision flags and func-value size facts are outside the spec; three known finding classes are represented by fixed terms and seeded generation is kept away from them",
     design="5 C15")
 
+CHECKS["C19"] = dict(
+    engine="tlc-pybridge+llgo+python",
+    technique="TLA+ PyBridge (value terms with limb integers, RoundTrip/Call/Lookup laws) and PyImports (import-once state machine over program shapes) enumerated by TLC with the expected echo/trace; llgo programs linked with libpython3.11 must produce it; python3 validates the spec's expectations; PyImportImpl (layer B) model-checked",
+    text="~9,000 value/call/lookup cases (64-bit boundary integers, special floats, text incl. NUL and multi-byte, bytes incl. invalid UTF-8, nested lists/tuples, arities 0-6) are sent to Python and read back; the Python side logs what it received. Program shapes with 1-3 packages using math/json/a local module in var/init/run positions must import each module exactly once, before first use.",
+    note="O0 only; reference counts not observed; any topological init order accepted (exact order is C12's)",
+    design="5 C19")
+CHECKS["C14"] = dict(
+    engine="tlc-naming+injected-test+llgo",
+    technique="TLA+ Naming (entities, same-entity relation) enumerates references built to collide; NamingJudge evaluates Injective / Agree / MergeSafe / Linkname / Reach on observations from cl.funcName, varName, abi.TypeName (injected test, five package layouts) and from llgo-built multi-package programs + llvm-nm; NamingImpl (layer B) model-checked",
+    text="714 references (1,292 in thorough) reuse every name on every axis (package, T vs *T, local scopes, type arguments incl. local/alias/composite); each link name is collected from every package that compiles the entity; programs in which every body prints its identity must reach the predicted entity; no strong symbol is defined twice, weak duplicates have equal size.",
+    note="MergeSafe end to end is an equal-size proxy; goroutine thunks end-to-end only; C-callback wrappers not covered; one known finding (dotted last path element)",
+    design="5 C14")
+
 NOT_YET = {}
 
 props = [json.loads(l) for l in open(os.path.join(V, "properties.jsonl"))]
